@@ -113,6 +113,9 @@ type fmtSession struct {
 	dir  string
 	uri  string
 	conf fmtConfig
+	// workspace sessions: format other.journal (otherText) before the next document
+	otherFirst bool
+	otherText  string
 }
 
 func newFmtSession(c *core.Ctx, conf fmtConfig, idx int, sets map[string]string) *fmtSession {
@@ -130,7 +133,12 @@ func newFmtSession(c *core.Ctx, conf fmtConfig, idx int, sets map[string]string)
 	}
 	s.Initialize(wire.InitOpts{Root: root, Options: opts})
 	s.Initialized()
-	return &fmtSession{s: s, dir: dir, uri: wire.URI(filepath.Join(dir, "doc.journal")), conf: conf}
+	fs := &fmtSession{s: s, dir: dir, uri: wire.URI(filepath.Join(dir, "doc.journal")), conf: conf}
+	if conf.Where == "workspace" {
+		// formats that differ from every set of the catalogue (6 decimals, other marks)
+		fs.otherText = "commodity $1 000,000000\ncommodity 1 000,000000 USD\ncommodity 1 000,000000 EUR\ncommodity € 1 000,000000\ncommodity 1 000,000000 \"green apples\"\n\n2001-09-09 other\n    a:b  $1\n    a:c\n"
+	}
+	return fs
 }
 
 type fmtResult struct {
@@ -171,6 +179,15 @@ func (f *fmtSession) format(text string) fmtResult {
 		_ = os.WriteFile(filepath.Join(f.dir, "doc.journal"), []byte(old), 0o644)
 		f.s.DidOpen(f.uri, old)
 		f.s.DidClose(f.uri)
+		if f.otherFirst {
+			// another document, outside the root's include tree, which declares its own
+			// (different) formats for the same commodities, is formatted first
+			f.otherFirst = false
+			ou := wire.URI(filepath.Join(f.dir, "other.journal"))
+			f.s.DidOpen(ou, f.otherText)
+			f.s.Call("textDocument/formatting", `{"textDocument":{"uri":`+wire.Q(ou)+`},"options":{"tabSize":4,"insertSpaces":true}}`)
+			f.s.DidClose(ou)
+		}
 	}
 	f.s.DidOpen(f.uri, text)
 	r := f.s.Call("textDocument/formatting", `{"textDocument":{"uri":`+wire.Q(f.uri)+`},"options":{"tabSize":4,"insertSpaces":true}}`)
@@ -255,7 +272,9 @@ func fmtCheckOne(c *core.Ctx, prop string, fs *fmtSession, sets map[string]strin
 	if kind != "valid" {
 		c.Announce(cas)
 	}
+	fs.otherFirst = fs.otherText != ""
 	res := fs.format(doc)
+	fs.otherFirst = false
 	c.Res.Evaluations++
 	cause := kind
 	if devs != "" {
